@@ -9,6 +9,7 @@ import (
 	"fmt"
 	"os"
 	"runtime/metrics"
+	"sort"
 	"strconv"
 	"strings"
 	"time"
@@ -65,6 +66,24 @@ func (o *popInner) UnmarshalJSON(b []byte) error { return encoding.PopulateStruc
 type popNesting struct {
 	In  *popInner `cbor:"1,keyasint,omitempty" json:"a,omitempty"`
 	In2 *popInner `cbor:"2,keyasint,omitempty" json:"b,omitempty"`
+}
+
+// two distinct destination types whose reflect.Type.String() is the same ("props.popTwin"): function-local types
+func popTwinLarge() any {
+	type popTwin struct {
+		A *int64  `cbor:"1,keyasint,omitempty" json:"a,omitempty"`
+		B *string `cbor:"2,keyasint,omitempty" json:"b,omitempty"`
+		C *[]byte `cbor:"-3,keyasint,omitempty" json:"c,omitempty"`
+		D *uint16 `cbor:"4,keyasint,omitempty" json:"d,omitempty"`
+	}
+	return &popTwin{}
+}
+
+func popTwinSmall() any {
+	type popTwin struct {
+		D *uint16 `cbor:"4,keyasint,omitempty" json:"d,omitempty"`
+	}
+	return &popTwin{}
 }
 
 type decodeEntry struct {
@@ -181,6 +200,15 @@ func decodeEntries() []decodeEntry {
 			err := c.UnmarshalCBOR(in)
 			return c, err
 		}},
+		{"PopulateStructFromCBOR(two types of the same name)", false, func(in []byte) (any, error) {
+			_ = encoding.PopulateStructFromCBOR(extDM, in, popTwinLarge())
+			d := popTwinSmall()
+			err := encoding.PopulateStructFromCBOR(extDM, in, d)
+			if err == nil {
+				_, _ = encoding.SerializeStructToCBOR(extEM, d)
+			}
+			return nil, err
+		}},
 		{"PopulateStructFromCBOR(field-populates-again)", false, func(in []byte) (any, error) {
 			d := &popNesting{}
 			return d, encoding.PopulateStructFromCBOR(extDM, in, d)
@@ -228,6 +256,15 @@ func decodeEntries() []decodeEntry {
 			c := &psatoken.SwComponents[*AltComp]{}
 			err := c.UnmarshalJSON(in)
 			return c, err
+		}},
+		{"PopulateStructFromJSON(two types of the same name)", true, func(in []byte) (any, error) {
+			_ = encoding.PopulateStructFromJSON(in, popTwinLarge())
+			d := popTwinSmall()
+			err := encoding.PopulateStructFromJSON(in, d)
+			if err == nil {
+				_, _ = encoding.SerializeStructToJSON(d)
+			}
+			return nil, err
 		}},
 		{"PopulateStructFromJSON(field-populates-again)", true, func(in []byte) (any, error) {
 			d := &popNesting{}
@@ -608,6 +645,31 @@ var jsonInsert = []byte(`{}[]",:\ntf0-.e `)
 func decodeScenarios(d *decodeCtx, thoroughTier bool) map[string]choice.Scenario {
 	seeds := decodeSeeds()
 	sc := map[string]choice.Scenario{}
+	// S0: the unmodified seeds, before anything else and in EVERY worker process: the first use of each entry point (and of
+	// each destination type) in a process is a complete, nested input - what lazily built per-type state sees first
+	first := append([]decodeSeed{}, seeds...)
+	sort.SliceStable(first, func(i, j int) bool { // nested / complete inputs first
+		rank := func(n string) int {
+			switch {
+			case strings.Contains(n, "nested") || strings.Contains(n, "of-maps"):
+				return 0
+			case strings.Contains(n, "ext"):
+				return 1
+			case strings.Contains(n, "envelope"):
+				return 2
+			}
+			return 3
+		}
+		return rank(first[i].name) < rank(first[j].name)
+	})
+	sc["s0.seeds-first"] = func(c *choice.Ctx) {
+		s := first[c.Choose("seed", len(first))]
+		kind := 0
+		if s.json {
+			kind = 1
+		}
+		d.feed(c, s.raw, kind, "unmodified seed "+s.name+" (first use in this process)")
+	}
 	// S1: all short byte strings
 	maxLen := 2
 	sc["s1.short-bytes"] = func(c *choice.Ctx) {
@@ -1014,9 +1076,9 @@ func bytesRepeat(b []byte, n int) []byte {
 // plan lists (scenario, deviation bound) per tier.
 func decodePlan(thoroughTier bool) [][2]any {
 	if !thoroughTier {
-		return [][2]any{{"s1.short-bytes", -1}, {"s2.byte-closure", -1}, {"s3.tree-closure", 4}, {"s3.json-closure", 4}, {"hostile-heads", -1}, {"nesting", -1}, {"after-large-input", -1}, {"json-repeated-names", -1}}
+		return [][2]any{{"s0.seeds-first", -1}, {"s1.short-bytes", -1}, {"s2.byte-closure", -1}, {"s3.tree-closure", 4}, {"s3.json-closure", 4}, {"hostile-heads", -1}, {"nesting", -1}, {"after-large-input", -1}, {"json-repeated-names", -1}}
 	}
-	return [][2]any{{"s1.short-bytes", -1}, {"s2.byte-closure", -1}, {"s3.tree-closure", -1}, {"s3.json-closure", -1}, {"hostile-heads", -1}, {"nesting", -1}, {"after-large-input", -1}, {"json-repeated-names", -1}, {"s2.head-pairs", -1}, {"s1.three-bytes", -1}}
+	return [][2]any{{"s0.seeds-first", -1}, {"s1.short-bytes", -1}, {"s2.byte-closure", -1}, {"s3.tree-closure", -1}, {"s3.json-closure", -1}, {"hostile-heads", -1}, {"nesting", -1}, {"after-large-input", -1}, {"json-repeated-names", -1}, {"s2.head-pairs", -1}, {"s1.three-bytes", -1}}
 }
 
 // Workers maps property id -> worker body.
